@@ -166,7 +166,7 @@ def run_driver(requests):
         return []
     inp = "\n".join(json.dumps({k: r[k] for k in ("p", "op", "in", "obs")}, separators=(",", ":")) for r in requests) + "\n"
     nshard = min(8, max(1, len(requests) // 200))
-    lines = inp.splitlines()
+    lines = [l for l in inp.split("\n") if l]
     shards = [lines[i::nshard] for i in range(nshard)]
     procs = []
     for s in shards:
@@ -182,7 +182,7 @@ def run_driver(requests):
     replies = [None] * len(lines)
     for i in range(nshard):
         so, se = outs[i]
-        got = [l for l in so.splitlines() if l.strip()]
+        got = [l for l in so.split("\n") if l.strip()]
         if len(got) != len(shards[i]):
             raise Infra(f"driver returned {len(got)} replies for {len(shards[i])} requests: {se[-800:]} {so[-300:]}")
         for k, l in enumerate(got):
